@@ -76,6 +76,24 @@ pub fn trace(isa: usize, prim: usize) {
     TRACE[isa * PRIM_COUNT + prim].fetch_add(1, Ordering::Relaxed);
 }
 
+static CORE: [AtomicU64; PRIM_COUNT] = [ZERO; PRIM_COUNT];
+
+/// Records one execution of the ISA-independent building block of primitive `prim`
+/// (e.g. `utils::eval_poly`), whichever entry point it was reached through.
+#[inline(always)]
+pub fn trace_core(prim: usize) {
+    CORE[prim].fetch_add(1, Ordering::Relaxed);
+}
+
+/// Returns per-primitive execution counts of the ISA-independent building blocks.
+pub fn core_snapshot() -> [u64; PRIM_COUNT] {
+    let mut out = [0; PRIM_COUNT];
+    for (prim, cell) in out.iter_mut().enumerate() {
+        *cell = CORE[prim].load(Ordering::SeqCst);
+    }
+    out
+}
+
 /// Returns `[isa][prim]` execution counts since last [`trace_reset`].
 pub fn trace_snapshot() -> [[u64; PRIM_COUNT]; ISA_COUNT] {
     let mut out = [[0; PRIM_COUNT]; ISA_COUNT];
@@ -90,6 +108,9 @@ pub fn trace_snapshot() -> [[u64; PRIM_COUNT]; ISA_COUNT] {
 /// Zeroes all execution counts.
 pub fn trace_reset() {
     for counter in &TRACE {
+        counter.store(0, Ordering::SeqCst);
+    }
+    for counter in &CORE {
         counter.store(0, Ordering::SeqCst);
     }
 }
